@@ -753,10 +753,8 @@ func VerifC04Via(route, nreq, nopt, rest, nkey, nargs, perm, vmode int) {
 		}()
 		got = scope.Eval(form, 0)
 	}()
-	// (funcall f) with no further argument is rejected by funcall's own arity
-	// check (documented (function &rest args), requires two): recorded under
-	// the documented-count-rejected family of C04.arity
-	vrt.Carve(zzC04FamIDs[zzC04FamRejected], route == 1 && nargs == 0)
+	// ((funcall f) with no further argument used to be rejected by funcall's own
+	// arity check; repaired in slip, so it is asserted like every other call)
 	vrt.Reach("evaluated")
 	vrt.Assert(class != zzC04GoFault, "Go run-time fault")
 	if reject {
